@@ -20,7 +20,7 @@ fi
 rm $WT/$DEMODIR/zz_demo_test.go
 ( cd $WT && go test -count=1 ./... >/tmp/mut_suite.log 2>&1 ); SUITE=$?
 echo "demo on clean tree: rc=$CLEAN (want 0); demo with mutant: rc=$MUT (want !=0); suite with mutant: rc=$SUITE (want 0)"
-( cd $WT && git diff > /tmp/mut_current.diff )
+( cd $WT && git diff HEAD > /tmp/mut_current.diff )
 if [ $CLEAN -ne 0 ] || [ $MUT -eq 0 ] || [ $SUITE -ne 0 ]; then echo "MUTANT-NOT-CONFIRMED"; exit 4; fi
 git -C /repo apply /tmp/mut_current.diff || exit 3
 cd /verif && ./check $P --tier $TIER > /tmp/mut_check.log 2>&1; RC=$?
